@@ -34,14 +34,14 @@ theorem C12_tableOK : TableOK := by
 
 /-- no user types: the callbacks of the library-type model -/
 def noNamedTy : Str → List Ts → Option Ts := fun _ _ => none
-def noNamedSer : Str → List RTy → RVal → Option Json := fun _ _ _ => none
+def noNamedSer : Str → List RTy → RVal → Option JVal := fun _ _ _ => none
 
 /-- **C12 (soundness)**: for every library type expression built from the primitives, `Option`,
 `Vec`, slices, sets, arrays of EVERY length, tuples of every arity, maps, `Result`, ranges and the
 wrappers, nested to ANY depth, and every value of it (without non-finite floats, `PhantomData`
 and dangling `Weak`, see the counter-examples below): the JSON serde_json emits inhabits the
 TypeScript type ts-rs reports. Holds for every value of the array/tuple limit. -/
-theorem C12_sound (D : Decls) (limit : Nat) (t : RTy) (v : RVal) (T : Ts) (j : Json)
+theorem C12_sound (D : Decls) (limit : Nat) (t : RTy) (v : RVal) (T : Ts) (j : JVal)
     (hT : nameTyB limit noNamedTy t = some T) (hs : serB noNamedSer t v = some j)
     (hc : cleanV v = true) : Member D T j :=
   serB_sound D limit noNamedTy noNamedSer C12_tableOK
@@ -50,8 +50,8 @@ theorem C12_sound (D : Decls) (limit : Nat) (t : RTy) (v : RVal) (T : Ts) (j : J
 /-- the same with user types plugged in: whatever is sound for the named types stays sound under
 every library type constructor (this is how C01 uses C12) -/
 theorem C12_sound_over (D : Decls) (limit : Nat) (nameN : Str → List Ts → Option Ts)
-    (serN : Str → List RTy → RVal → Option Json) (hN : NamedSound D limit nameN serN)
-    (t : RTy) (v : RVal) (T : Ts) (j : Json)
+    (serN : Str → List RTy → RVal → Option JVal) (hN : NamedSound D limit nameN serN)
+    (t : RTy) (v : RVal) (T : Ts) (j : JVal)
     (hT : nameTyB limit nameN t = some T) (hs : serB serN t v = some j) (hc : cleanV v = true) :
     Member D T j :=
   serB_sound D limit nameN serN C12_tableOK hN t v T j hT hs hc
